@@ -94,7 +94,7 @@ Theorem C11_cache_transparent_repaired : forall H w h,
 Proof. exact cache_transparent_repaired. Qed.
 Print Assumptions C11_cache_transparent_repaired.
 
-(** … and with fixes/C11-F6.diff ([fx_all6]: the keys of the generic contextualizer and the generic
+(** The statement about the code as it is ([fx_all6], since /repo 0b950ef = fixes/C11-F6.diff: the keys of the generic contextualizer and the generic
     authenticator cover the forwarded headers and cookies with their values, the authenticator's also its
     payload template): the guard of C11-F6 is gone, whatever the instances and requests.  The guard of
     C11-F4 (open) then also covers the two new digests over forwarded names and values. *)
@@ -188,6 +188,7 @@ Theorem C11_F4_history_refuted :
 Proof. exact F4_history_refuted. Qed.
 Print Assumptions C11_F4_history_refuted.
 
+(* pinned witness: the key layout before 0b950ef ([fx_none]); with [fx6] the guard of C11-F6 cannot fire (fx6_no_F6) *)
 Theorem C11_F6_refuted :
   exists w a b, (forall H, g_F6 fx_none H [a; b] = true) /\ step_orders_valid a /\ step_orders_valid b /\
     forall H, map sr_out (run_cached fx_none H w [] [a; b]) <> map fst (run_fresh w [a; b]).
